@@ -501,12 +501,6 @@ theorem observed_key_matches_create (ns n : String) :
     getControllerKey ns (some ⟨"BatchRelease", n⟩) = some (nsName ns n) := by
   simp [getControllerKey]
 
-/-- the operations a BatchRelease `(ns, n)` performs on the resource expectations -/
-def brOpOf (ns n : String) : EOp → Bool
-  | .brCreate _ ns' n' _ _ _ _ => ns' == ns && n' == n
-  | .brObserved ns' _ o => ns' == ns && (match o with | some ow => ow.kind != "BatchRelease" || ow.name == n | none => true)
-  | _ => false
-
 theorem br_keys (ns n : String) (o : EOp) (h : brOpOf ns n o = true) : ∀ k ∈ o.keys, k = nsName ns n := by
   intro k hk
   cases o with
@@ -534,17 +528,6 @@ theorem br_keys (ns n : String) (o : EOp) (h : brOpOf ns n o = true) : ∀ k ∈
   | satisfied _ => simp [brOpOf] at h
   | delete _ => simp [brOpOf] at h
   | get _ => simp [brOpOf] at h
-
-/-- every operation of the trace is performed by the BatchRelease that owns it -/
-def brTraceOf (rels : List (Nat × String × String)) (tr : List (Ev EOp)) : Bool :=
-  tr.all fun e => match e with
-    | .op r o => match rels.lookup r with
-      | some x => brOpOf x.1 x.2 o
-      | none => false
-    | _ => true
-
-def brAllDistinct (rels : List (Nat × String × String)) : Bool :=
-  rels.all fun a => noSlash a.2.1 && rels.all fun b => a.1 == b.1 || relDistinct a.2.1 a.2.2 b.2.1 b.2.2
 
 /-- **C19, BatchRelease canary Deployments — headline**: BatchReleases with different (namespace, name) never
     see each other's creation expectations: in any interleaving each one's `Create` is allowed, blocked or
